@@ -18,6 +18,7 @@ import (
 	"github.com/openfga/openfga/internal/build"
 	"github.com/openfga/openfga/internal/concurrency"
 	"github.com/openfga/openfga/internal/telemetry"
+	"github.com/openfga/openfga/internal/verifhook"
 	"github.com/openfga/openfga/pkg/logger"
 	"github.com/openfga/openfga/pkg/storage"
 	"github.com/openfga/openfga/pkg/tuple"
@@ -221,8 +222,10 @@ func (c *InMemoryCacheController) InvalidateIfNeeded(ctx context.Context, storeI
 	go func() {
 		// we do not want to propagate context to avoid early cancellation
 		// and pollute span.
+		verifhook.Event("cc.run.begin", storeID)
 		c.findChangesAndInvalidateIfNecessary(ctx, storeID)
 		c.inflightInvalidations.Delete(storeID)
+		verifhook.Event("cc.run.end", storeID)
 		c.wg.Done()
 	}()
 }
